@@ -294,6 +294,21 @@ class RowInterp:
                 if all(self.ev(c, env2) for c in g.ifs):
                     out.append(self.ev(e.elt, env2))
             return out
+        if isinstance(e, ast.BoolOp):
+            for v in e.values:
+                x = self.ev(v, env)
+                if not isinstance(x, bool):
+                    raise RowUnknown("boolean operation on a non-constant")
+                if isinstance(e.op, ast.And) and not x:
+                    return False
+                if isinstance(e.op, ast.Or) and x:
+                    return True
+            return isinstance(e.op, ast.And)
+        if isinstance(e, ast.UnaryOp) and isinstance(e.op, ast.Not):
+            x = self.ev(e.operand, env)
+            if not isinstance(x, bool):
+                raise RowUnknown("negation of a non-constant")
+            return not x
         if isinstance(e, ast.IfExp):
             c = self.ev(e.test, env)
             if not isinstance(c, bool):
